@@ -212,7 +212,32 @@ static bytes small_buf(int len, int content) {
   s.gseed = content == 0 ? 0 : 7;
   return s.expand();
 }
+// every single-bit change of every byte of the six canonical names (a name of the right length that differs from a valid one
+// in one bit): refused unless it is a case variant of a valid name (which may be accepted or refused, see body())
+static bool check_name_bitflips(Stats &stats, const WorkerOpts &o) {
+  for (int i = 0; i < 6; i++) {
+    std::string base = NAMES[i];
+    for (size_t p = 0; p < base.size(); p++)
+      for (int b = 0; b < 8; b++) {
+        std::string n = base;
+        n[p] = (char)(n[p] ^ (1 << b));
+        if (n[p] == 0) continue;
+        Case c;
+        c.name = n;
+        Result r;
+        body(c, r);
+        stats.add(c.ser(), r);
+        if (r.fail) {
+          write_file(o.outdir + "/fail.case", c.ser());
+          write_file(o.outdir + "/fail.msg", r.msg);
+          return false;
+        }
+      }
+  }
+  return true;
+}
 static int extra_modes(const WorkerOpts &o, Stats &stats) {
+  if (o.mode == "small" && o.worker == 0 && !check_name_bitflips(stats, o)) return 1;
   if (o.mode == "big") {
     // buffers just above 2^24 (and 2^25) bytes: the sizes at which 24/25-bit length fields would wrap
     static const uint32_t SIZES[] = {16777217u, 33554437u};
